@@ -55,7 +55,7 @@ TABLE = {
     'hyperu': (lambda a, b: (lambda x: mp.hyperu(a, b, x)), _dist_pole0, 'pos'),
 }
 PIECEWISE = ['rint', 'fix', 'floor', 'ceil', 'trunc', 'sign', 'absolute', 'clip']
-HYPERU_PARAMS = [(0.5, 0.75), (1.0, 1.5), (1.5, 2.25), (2.5, 0.75), (-0.5, 1.5), (-1.5, 0.75)]
+HYPERU_PARAMS = [(0.5, 0.75), (1.0, 1.5), (1.5, 2.25), (2.5, 0.75), (-0.5, 1.5), (-1.5, 0.75), (-1.0, 1.5), (-2.0, 0.75), (-3, 0.5), (0.0, 1.25)]   # incl. the polynomial cases a = 0, -1, -2, ...
 POLYGAMMA_M = [0, 1, 2, 3]
 NEAR_OVERFLOW = {'exp': [709.7], 'exp2': [1023.9], 'expm1': [709.7], 'sinh': [710.4, -710.4], 'cosh': [710.4, -710.4]}
 
@@ -246,6 +246,27 @@ def run_case(ctx, case):
             return
         ctx.ok(name, (name, prm, n, p['cls']), noise=float(err),
                sample={'fn': name, 'prm': prm, 'x': x, 'n': n, 'got': float(np.real(g)), 'ref': mp.nstr(ref, 17)} if (n == 3 and p['cls'] == 'random') else None)
+    if p['cls'] == 'integer' and float(x) == int(x):
+        # the same point given with an integer type (an array of ints, a Python int, a NumPy integer scalar): a derivative is not an
+        # integer, the value is the same as at the float spelling (order 0 of `reciprocal` is NumPy's integer reciprocal by definition)
+        for n in [int(v) for v in order]:
+            if n == 0 and name == 'reciprocal':
+                continue
+            for tag, xi in (('int-array', np.array([int(x), int(x)])), ('python-int', int(x)), ('numpy-int32', np.int32(int(x)))):
+                try:
+                    got = np.asarray(f(*(list(prm) + [xi]), n=n))
+                except Exception as e:
+                    ctx.violation('%s:integer-typed-point:raises' % name, {'fn': name, 'prm': prm, 'x': int(x), 'spelling': tag, 'n': n, 'error': repr(e)[:200]})
+                    return
+                g = got.reshape(-1)[0] if got.size else np.nan
+                ref = refs[n]
+                S = max(abs(ref), mp.mpf('1e-4') * mp.factorial(n) * M / mp.mpf(rho) ** n)
+                err = abs(mp.mpf(float(np.real(g))) - mp.re(ref)) / S if np.isfinite(g) else mp.inf
+                if not err <= TAU_FN.get(name, TAU):
+                    ctx.violation('%s:integer-typed-point:value' % name, {'fn': name, 'prm': prm, 'x': int(x), 'spelling': tag, 'n': n, 'got': float(np.real(g)),
+                                                                          'want': mp.nstr(ref, 17)})
+                    return
+                ctx.ok(name, (name, prm, n, 'integer-typed', tag))
 
 
 def _piecewise(ctx, name, f, p, rng):
